@@ -120,6 +120,9 @@ func TString(t *ast.Type) string { panic("ghost") }
 //@ func parseArgList
 //@ props C15
 //@ ensures[defaults-kept] forall(i, 0, len(args), args[i].DefaultValue != nil ==> i < len(result) && result[i] != nil && result[i].DefaultValue != nil)
+//@ modifies fresh
+//@ loop 0 modifies result[*], *argument, fresh
+//@ loop 0 invariant[own] fresh(result) && (base(result) == base(atloop(result)) && off(result) == off(atloop(result)) || freshloop(result))
 //@ end
 
 // ---- C15 "reported as a start-up error rather than altered" needs at least: rebuilding a schema from a (spec
@@ -138,13 +141,29 @@ func TString(t *ast.Type) string { panic("ghost") }
 //@ modifies-assumed s.PossibleTypes, entries(map[string][]*ast.Definition), elems(*ast.Definition), fresh
 //@ end
 
+// C15: a type of the answer is rebuilt under its own name, unless it is one of the built-in names that gqlparser
+// adds by itself; kinds are mapped one to one
+//@ define builtinTypeName(n string) bool = n == "ID" || n == "Int" || n == "Float" || n == "String" || n == "Boolean" || n == "__Schema" || n == "__Type" || n == "__InputValue" || n == "__TypeKind" || n == "__DirectiveLocation" || n == "__Field" || n == "__EnumValue" || n == "__Directive"
+
 //@ func parseType
 //@ props C15
+//@ ensures[builtins-only-skipped] (result == nil) == builtinTypeName(remoteType.Name)
+//@ ensures[name-kept] result != nil ==> fresh(result) && result.Name == remoteType.Name && result.Description == remoteType.Description
+//@ ensures[kind-kept] result != nil ==> (remoteType.Kind == "OBJECT" ==> result.Kind == ast.Object) && (remoteType.Kind == "SCALAR" ==> result.Kind == ast.Scalar) && (remoteType.Kind == "INTERFACE" ==> result.Kind == ast.Interface) && (remoteType.Kind == "UNION" ==> result.Kind == ast.Union) && (remoteType.Kind == "INPUT_OBJECT" ==> result.Kind == ast.InputObject) && (remoteType.Kind == "ENUM" ==> result.Kind == ast.Enum)
+//@ ensures[field-count] result != nil ==> len(result.Fields) == len(remoteType.Fields) + len(remoteType.InputFields)
+//@ modifies fresh
+//@ loop 0 modifies definition.EnumValues, *value, fresh
+//@ loop 0 invariant[own] fresh(definition) && (base(definition.EnumValues) == 0 || freshloop(definition.EnumValues))
+//@ loop 1 modifies *field, fresh
+//@ loop 1 invariant[own] fresh(definition) && (base(fields) == 0 || freshloop(fields)) && len(fields) == it
+//@ loop 2 modifies fields[*], *field, fresh
+//@ loop 2 invariant[own] fresh(definition) && (base(fields) == 0 || fresh(fields)) && (base(fields) == base(atloop(fields)) && off(fields) == off(atloop(fields)) || freshloop(fields)) && len(fields) == len(remoteType.Fields) + it
 //@ end
 
 //@ func parseInputField
 //@ props C15
 //@ ensures[nonnil] result != nil
+//@ modifies-assumed fresh
 //@ end
 
 //@ func parseQueryerResponse
@@ -154,11 +173,27 @@ func TString(t *ast.Type) string { panic("ghost") }
 //@ func introspectRemoteSchema
 //@ props C15
 //@ requires factory != nil
+// C15 (root operation types): what is handed to the formatter has the query, mutation and subscription root the answer
+// names, whenever a type of that name is among the types of the answer (and is not shadowed by an earlier root name)
+//@ callsite formatSchema requires[query-root] forall(i, 0, len(remoteSchema.Types), remoteSchema.Types[i].Name == remoteSchema.QueryType.Name && !builtinTypeName(remoteSchema.Types[i].Name) ==> schema.Query != nil && schema.Query.Name == remoteSchema.QueryType.Name) @using query-root
+//@ callsite formatSchema requires[mutation-root] remoteSchema.MutationType != nil ==> forall(i, 0, len(remoteSchema.Types), remoteSchema.Types[i].Name == remoteSchema.MutationType.Name && remoteSchema.Types[i].Name != remoteSchema.QueryType.Name && !builtinTypeName(remoteSchema.Types[i].Name) ==> schema.Mutation != nil && schema.Mutation.Name == remoteSchema.MutationType.Name) @using mutation-root
+//@ callsite formatSchema requires[subscription-root] remoteSchema.SubscriptionType != nil ==> forall(i, 0, len(remoteSchema.Types), remoteSchema.Types[i].Name == remoteSchema.SubscriptionType.Name && remoteSchema.Types[i].Name != remoteSchema.QueryType.Name && (remoteSchema.MutationType == nil || remoteSchema.Types[i].Name != remoteSchema.MutationType.Name) && !builtinTypeName(remoteSchema.Types[i].Name) ==> schema.Subscription != nil && schema.Subscription.Name == remoteSchema.SubscriptionType.Name) @using subscription-root
+//@ loop 0 modifies *remoteType, schema.Query, schema.Mutation, schema.Subscription, schema.Types[*], schema.Implements, entries(map[string][]*ast.Definition), elems(*ast.Definition), fresh
 //@ loop 0 invariant[maps] schema != nil && schema.Types != nil && schema.Directives != nil && forallT(k, string, has(schema.Types, k) ==> schema.Types[k] != nil)
+//@ loop 0 invariant[query-root] forall(i, 0, it, remoteSchema.Types[i].Name == remoteSchema.QueryType.Name && !builtinTypeName(remoteSchema.Types[i].Name) ==> schema.Query != nil && schema.Query.Name == remoteSchema.QueryType.Name) @using query-root, name-kept, builtins-only-skipped
+//@ loop 0 invariant[mutation-root] remoteSchema.MutationType != nil ==> forall(i, 0, it, remoteSchema.Types[i].Name == remoteSchema.MutationType.Name && remoteSchema.Types[i].Name != remoteSchema.QueryType.Name && !builtinTypeName(remoteSchema.Types[i].Name) ==> schema.Mutation != nil && schema.Mutation.Name == remoteSchema.MutationType.Name) @using mutation-root, name-kept, builtins-only-skipped
+//@ loop 0 invariant[subscription-root] remoteSchema.SubscriptionType != nil ==> forall(i, 0, it, remoteSchema.Types[i].Name == remoteSchema.SubscriptionType.Name && remoteSchema.Types[i].Name != remoteSchema.QueryType.Name && (remoteSchema.MutationType == nil || remoteSchema.Types[i].Name != remoteSchema.MutationType.Name) && !builtinTypeName(remoteSchema.Types[i].Name) ==> schema.Subscription != nil && schema.Subscription.Name == remoteSchema.SubscriptionType.Name) @using subscription-root, name-kept, builtins-only-skipped
+//@ loop 1 modifies *remoteType, *possibleType, *iface, all(ast.Definition.Types), all(ast.Definition.Interfaces), elems(string), schema.PossibleTypes, schema.Implements, entries(map[string][]*ast.Definition), elems(*ast.Definition), fresh
 //@ loop 1 invariant[maps] schema != nil && schema.Types != nil && schema.Directives != nil && forallT(k, string, has(schema.Types, k) ==> schema.Types[k] != nil)
+//@ loop 2 modifies *remoteType, *possibleType, *iface, all(ast.Definition.Types), all(ast.Definition.Interfaces), elems(string), schema.PossibleTypes, schema.Implements, entries(map[string][]*ast.Definition), elems(*ast.Definition), fresh
 //@ loop 2 invariant[maps] schema != nil && schema.Types != nil && schema.Directives != nil && forallT(k, string, has(schema.Types, k) ==> schema.Types[k] != nil)
+//@ loop 3 modifies *remoteType, *possibleType, *iface, all(ast.Definition.Types), all(ast.Definition.Interfaces), elems(string), schema.PossibleTypes, schema.Implements, entries(map[string][]*ast.Definition), elems(*ast.Definition), fresh
 //@ loop 3 invariant[maps] schema != nil && schema.Types != nil && schema.Directives != nil && forallT(k, string, has(schema.Types, k) ==> schema.Types[k] != nil)
+//@ loop 4 modifies *remoteType, *possibleType, *iface, all(ast.Definition.Types), all(ast.Definition.Interfaces), elems(string), schema.PossibleTypes, schema.Implements, entries(map[string][]*ast.Definition), elems(*ast.Definition), fresh
 //@ loop 4 invariant[maps] schema != nil && schema.Types != nil && schema.Directives != nil && forallT(k, string, has(schema.Types, k) ==> schema.Types[k] != nil)
+//@ loop 5 modifies *directive, schema.Directives[*], fresh
 //@ loop 5 invariant[maps] schema != nil && schema.Types != nil && schema.Directives != nil && forallT(k, string, has(schema.Types, k) ==> schema.Types[k] != nil)
+//@ loop 6 modifies locations[*], fresh
+//@ loop 6 invariant[own] base(locations) == 0 || freshloop(locations)
 //@ loop 6 invariant[maps] schema != nil && schema.Types != nil && schema.Directives != nil && forallT(k, string, has(schema.Types, k) ==> schema.Types[k] != nil)
 //@ end
